@@ -17,6 +17,8 @@ mod c01_read_total;
 #[cfg(kani)]
 mod c01_streams;
 #[cfg(kani)]
+mod c01_linux_text;
+#[cfg(kani)]
 mod c07_stack_win;
 
 /// Trivial harness used by `./check --setup` to warm the dependency build.
@@ -54,3 +56,5 @@ mod c08_rangemap;
 mod c04_frame_pointer;
 #[cfg(kani)]
 mod c02_records;
+#[cfg(kani)]
+mod c04_cfi_walker;
